@@ -493,7 +493,7 @@ def run_shard(tier, seed, shard, nshards, res):
         for i in range(60 if tier == 'quick' else 1200):
             rng = common.rng_for(seed, 'c15', shard, i)
             schedule(dc, sc, res, rng, 'c15 seed=%d shard=%d i=%d' % (seed, shard, i), kinds[i % 4])
-            if res.counters.get('violations_raw', 0) > 6:
+            if res.new_violations() > 6:
                 return
         probe.reset()
         for i in range(1 if tier == 'quick' else 6):
